@@ -16,6 +16,20 @@ where
     o_list(v.into_iter().map(back))
 }
 
+fn partc<T>(vals: &[u128], shift: usize, four: bool, codes: &[qwt::quadwt::huffqwt::PrefixCode], cast: fn(u128) -> T, back: fn(T) -> u128) -> String
+where
+    T: num_traits::Unsigned + num_traits::PrimInt + Ord + std::ops::Shr<usize> + num_traits::AsPrimitive<usize>,
+    usize: num_traits::AsPrimitive<T>,
+{
+    let mut v: Vec<T> = vals.iter().map(|&x| cast(x)).collect();
+    if four {
+        stable_partition_of_4_with_codes(&mut v, shift, codes);
+    } else {
+        stable_partition_of_2_with_codes(&mut v, shift, codes);
+    }
+    o_list(v.into_iter().map(back))
+}
+
 pub fn utils_q(f: &str, args: &[&str]) -> String {
     let n = |i: usize| -> u128 { args[i].parse::<u128>().unwrap() };
     match f {
@@ -58,6 +72,43 @@ pub fn utils_q(f: &str, args: &[&str]) -> String {
                 32 => part::<u32>(&vals, shift, four, |x| x as u32, |x| x as u128),
                 64 => part::<u64>(&vals, shift, four, |x| x as u64, |x| x as u128),
                 _ => part::<u128>(&vals, shift, four, |x| x, |x| x),
+            }
+        }
+        // u part4c <bits> <shift> <ncodes> (<content> <len>)* <vals…>: the `_with_codes` partitions called directly
+        "part4c" | "part2c" => {
+            let four = f == "part4c";
+            let shift = n(1) as usize;
+            let nc = n(2) as usize;
+            let codes: Vec<qwt::quadwt::huffqwt::PrefixCode> =
+                (0..nc).map(|i| qwt::quadwt::huffqwt::PrefixCode { content: n(3 + 2 * i) as u32, len: n(4 + 2 * i) as u32 }).collect();
+            let vals: Vec<u128> = args[3 + 2 * nc..].iter().map(|x| x.parse().unwrap()).collect();
+            match n(0) {
+                8 => partc::<u8>(&vals, shift, four, &codes, |x| x as u8, |x| x as u128),
+                16 => partc::<u16>(&vals, shift, four, &codes, |x| x as u16, |x| x as u128),
+                32 => partc::<u32>(&vals, shift, four, &codes, |x| x as u32, |x| x as u128),
+                64 => partc::<u64>(&vals, shift, four, &codes, |x| x as u64, |x| x as u128),
+                _ => partc::<u128>(&vals, shift, four, &codes, |x| x, |x| x),
+            }
+        }
+        // u posraw <bit> <n_bits> <pos|-> <words…>: BitVectorBitPositionsIter over a caller-supplied slice
+        // (`-` = `new`, otherwise `with_pos`); the positions, then three more calls after the first None
+        "posraw" => {
+            let ws: Vec<u64> = args[3..].iter().map(|x| x.parse::<u64>().unwrap()).collect();
+            let nb = n(1) as usize;
+            fn drain<I: Iterator<Item = usize>>(mut it: I) -> String {
+                let mut v = vec![];
+                while let Some(p) = it.next() {
+                    v.push(p as u128);
+                }
+                let after: Vec<String> = [it.next(), it.next(), it.next()].iter().map(|x| crate::interp::o_opt(*x)).collect();
+                format!("{} {}", o_list(v), after.join(" "))
+            }
+            use qwt::bitvector::BitVectorBitPositionsIter as PI;
+            match (n(0) == 1, args[2]) {
+                (true, "-") => drain(PI::<true>::new(&ws, nb)),
+                (false, "-") => drain(PI::<false>::new(&ws, nb)),
+                (true, _) => drain(PI::<true>::with_pos(&ws, nb, n(2) as usize)),
+                (false, _) => drain(PI::<false>::with_pos(&ws, nb, n(2) as usize)),
             }
         }
         "text_remap" => {
